@@ -17,7 +17,6 @@ import (
 
 	"github.com/ovrclk/akash/client"
 	"github.com/ovrclk/akash/client/broadcaster"
-	"github.com/ovrclk/akash/events"
 	"github.com/ovrclk/akash/manifest"
 	"github.com/ovrclk/akash/provider/cluster"
 	"github.com/ovrclk/akash/provider/event"
@@ -33,6 +32,7 @@ import (
 	ptypes "github.com/ovrclk/akash/x/provider/types"
 
 	"verifsim/core"
+	"verifsim/evparse"
 	"verifsim/simrt"
 )
 
@@ -477,7 +477,7 @@ func (x *c20) leasePath(gi int) string {
 func pathOf(l mtypes.LeaseID) string { return fmt.Sprintf("%d/%d/%d", l.DSeq, l.GSeq, l.OSeq) }
 
 // viaChain takes a chain event the way it really reaches the provider: as the ABCI event the chain
-// emitted, turned back into a typed event by the provider's event parser (events.processEvent).  An
+// emitted, turned back into a typed event by the parsers the provider's feed uses (package evparse).  An
 // event the parser refuses is dropped, exactly as the real pipeline drops it.  Provider-internal events
 // (LeaseWon) are not chain events and pass unchanged.
 func (x *c20) viaChain(ev interface{}) (interface{}, bool) {
@@ -485,7 +485,7 @@ func (x *c20) viaChain(ev interface{}) (interface{}, bool) {
 	if !ok {
 		return ev, true
 	}
-	typed, ok := events.VerifProcessEvent(abci.Event(ce.ToSDKEvent()))
+	typed, ok := evparse.Process(abci.Event(ce.ToSDKEvent()))
 	if !ok {
 		x.r.Count("probe:chain-event-dropped-by-parser")
 		x.r.Logf("step %d: the provider's event parser dropped %T", x.s.Step, ev)
